@@ -12,6 +12,7 @@ fn main() {
 			let mut out = Out::create(&args[4]);
 			match args[2].as_str() {
 				"c20" => vh::c20_params_builder::replay(&cases, &mut out),
+				"c01" => vh::c01_single::replay(&cases, &mut out),
 				"c13" => vh::c13_registry::replay(&cases, &mut out),
 				"c16" => vh::c16_params_seq::replay(&cases, &mut out),
 				m => {
@@ -21,6 +22,33 @@ fn main() {
 			}
 			println!("{{\"n\":{},\"bad\":{}}}", out.n, out.bad);
 			out.finish();
+		}
+		"smoke" => {
+			let rt = tokio::runtime::Builder::new_multi_thread().worker_threads(4).enable_all().build().unwrap();
+			rt.block_on(async {
+				use std::time::Duration;
+				let rig = vh::server_rig::Rig::new(Default::default());
+				let r = rig.http_json(br#"{"jsonrpc":"2.0","id":1,"method":"echo","params":[1,"x"]}"#).await;
+				println!("http {} {}", r.status, String::from_utf8_lossy(&r.body));
+				let r = rig.http_json(br#"{"jsonrpc":"2.0","id":1,"method":"boom"}"#).await;
+				println!("http {} {}", r.status, String::from_utf8_lossy(&r.body));
+				let t0 = std::time::Instant::now();
+				for i in 0..1000 {
+					let mut ws = rig.ws().await.unwrap();
+					ws.send_text(r#"{"jsonrpc":"2.0","id":7,"method":"echo_blocking","params":{"a":1}}"#).await;
+					ws.send_text(r#"{"jsonrpc":"2.0","id":"probe","method":"echo"}"#).await;
+					let (a, hit) = ws.recv_until(Duration::from_secs(5), |v| v["id"] == "probe").await;
+					let (b, clean) = ws.stop_and_drain(Duration::from_secs(5)).await;
+					if i == 0 { println!("ws {a:?} {hit} | {b:?} {clean}"); }
+				}
+				println!("1000 ws conns in {:?}", t0.elapsed());
+				let t0 = std::time::Instant::now();
+				for _ in 0..10000 {
+					let _ = rig.http_json(br#"{"jsonrpc":"2.0","id":1,"method":"echo","params":[1,"x"]}"#).await;
+				}
+				println!("10000 http calls in {:?}", t0.elapsed());
+				println!("log entries {}", rig.take_log().len());
+			});
 		}
 		c => {
 			eprintln!("unknown command {c}");
